@@ -63,7 +63,7 @@ def check(tier, seed):
         ties = 0
         batch = []
         for _ in range(150 if tier == 'quick' else 6000):
-            kind = rng.choice(['noise', 'one_ubx', 'two_ubx', 'two_nmea', 'mixed', 'bad_ubx', 'three', 'late', 'ubx_filler', 'silence'])
+            kind = rng.choice(['noise', 'one_ubx', 'two_ubx', 'two_nmea', 'mixed', 'bad_ubx', 'three', 'late', 'ubx_filler', 'silence', 'near_nmea', 'near_nmea'])
             fr = lambda: G.frame(*rng.choice(G.CIDS), G.rand_payload(rng, rng.choice([0, 2, 8, 30])))
             nm = lambda good=True: G.nmea(bytes(rng.choice(b'GPRMC,0123456789.AN') for _ in range(rng.randrange(3, 30))), good=good)
             junk = lambda: G.rand_junk(rng)[0]
@@ -83,6 +83,13 @@ def check(tier, seed):
                 b = bytearray(fr() + fr())
                 b[rng.randrange(2, len(b))] ^= 0x10
                 s = bytes(b) + nm(False)
+            elif kind == 'near_nmea':
+                # sentences that are valid except for one inserted byte (line noise with the high bit set, or any byte)
+                def hit(x):
+                    x = bytearray(x)
+                    x.insert(rng.randrange(1, len(x) - 5), rng.choice([0x80, 0xb5, 0xff, 0xc3, rng.randrange(128, 256), 0x01]))
+                    return bytes(x)
+                s = hit(nm()) + hit(nm()) + rng.choice([b'', hit(nm())])
             elif kind == 'three':
                 s = nm() + fr() + nm() + fr()
             elif kind == 'late':
